@@ -11,9 +11,9 @@
     [t_ss] = the sum of its members' sigma^2 and > 0 (kappa > 0 for Thurstone-Mosteller);
     the [t_rank] values are ARBITRARY.  Domain at the [rate_core] level: >= 2 non-empty teams,
     beta > 0, sigma^2 + tau^2 > 0 for every player, as many rank keys as teams. *)
-From Coq Require Import List ZArith Reals Lra.
+From Coq Require Import List ZArith Bool Reals Lra.
 From OSV Require Import Num Order Core RInst.
-From OSV.Lemmas Require C07L.
+From OSV.Lemmas Require C07L C07LiftL.
 Import ListNotations.
 Open Scope R_scope.
 
@@ -270,4 +270,152 @@ Proof.
   - repeat (constructor; try (split; [discriminate|])); cbn; lra.
   - constructor; [cbn; intros [H|[]]; lra|]. constructor; [intros []|constructor].
   - repeat constructor.
+Qed.
+
+(** ** Thurstone-Mosteller through [rate_core], SHARP: the draw-margin term per tied pair, in
+    terms of the caller's own teams and rank keys.
+
+    A game is the list of teams next to their rank keys ([key_of_nat 0, 1, ...] when no rank
+    values are given); [rows l] lists every element of [l] with all the OTHER elements (the
+    other positions), so the double sum below ranges over the ORDERED pairs (p, q) of distinct
+    input positions; a pair contributes only if its keys are equal ([key_leb] both ways).
+    Each ordered tied pair contributes kappa / c_pq^2, i.e. 2 kappa / c_pq^2 per unordered tied
+    pair, with c_pq^2 = V_p + V_q + 2 beta^2 and V_t = the tau-inflated variance of team t
+    (the sum over its members of sigma^2 + tau^2).  In the partial model the code's c is
+    doubled (K1): c_pq^2 = 4 (V_p + V_q + 2 beta^2).  Domain: as in C01 (>= 2 non-empty teams,
+    beta > 0, kappa > 0, sigma^2 + tau^2 > 0, as many well-formed keys as teams). *)
+Theorem C07_rate_tmf_sharp : forall (Phi Phiinv : R -> R) (P : params R) (tau : R) (limit : bool)
+    (teams : list (list (rating R))) (keys : option (list key)),
+  (2 <= length teams)%nat -> 0 < p_beta P -> 0 < p_kappa P ->
+  match keys with
+  | Some ks => length ks = length teams /\ Forall (fun k : key => (0 <= snd k)%Z) ks
+  | None => True
+  end ->
+  Forall (fun t => t <> [] /\ Forall (fun p => 0 < r_sigma p * r_sigma p + tau * tau) t) teams ->
+  0 <= Rsum (map (fun tr => Rsum (map (fun pr => r_mu (snd pr) - r_mu (fst pr)) (combine (fst tr) (snd tr)))
+                            / Rsum (map (fun p => r_sigma p * r_sigma p + tau * tau) (fst tr)))
+                 (combine teams (@rate_core R (RNum Phi Phiinv) TMF P tau limit teams keys)))
+    <= Rsum (map (fun io : (key * list (rating R)) * list (key * list (rating R)) =>
+          Rsum (map (fun q : key * list (rating R) =>
+             if key_leb (fst (fst io)) (fst q) && key_leb (fst q) (fst (fst io))
+             then p_kappa P / (Rsum (map (fun p => r_sigma p * r_sigma p + tau * tau) (snd (fst io)))
+                               + Rsum (map (fun p => r_sigma p * r_sigma p + tau * tau) (snd q))
+                               + 2 * (p_beta P * p_beta P))
+             else 0) (snd io)))
+        (rows (combine (match keys with Some ks => ks | None => map key_of_nat (seq 0 (length teams)) end) teams))).
+Proof. exact C07LiftL.rate_tmf_sharp. Qed.
+Print Assumptions C07_rate_tmf_sharp.
+
+(** partial model: bounded by ALL tied pairs (the model only visits neighbours, see the next
+    theorem), with the doubled c of the code *)
+Theorem C07_rate_tmp_sharp : forall (Phi Phiinv : R -> R) (P : params R) (tau : R) (limit : bool)
+    (teams : list (list (rating R))) (keys : option (list key)),
+  (2 <= length teams)%nat -> 0 < p_beta P -> 0 < p_kappa P ->
+  match keys with
+  | Some ks => length ks = length teams /\ Forall (fun k : key => (0 <= snd k)%Z) ks
+  | None => True
+  end ->
+  Forall (fun t => t <> [] /\ Forall (fun p => 0 < r_sigma p * r_sigma p + tau * tau) t) teams ->
+  0 <= Rsum (map (fun tr => Rsum (map (fun pr => r_mu (snd pr) - r_mu (fst pr)) (combine (fst tr) (snd tr)))
+                            / Rsum (map (fun p => r_sigma p * r_sigma p + tau * tau) (fst tr)))
+                 (combine teams (@rate_core R (RNum Phi Phiinv) TMP P tau limit teams keys)))
+    <= Rsum (map (fun io : (key * list (rating R)) * list (key * list (rating R)) =>
+          Rsum (map (fun q : key * list (rating R) =>
+             if key_leb (fst (fst io)) (fst q) && key_leb (fst q) (fst (fst io))
+             then p_kappa P / (4 * (Rsum (map (fun p => r_sigma p * r_sigma p + tau * tau) (snd (fst io)))
+                                    + Rsum (map (fun p => r_sigma p * r_sigma p + tau * tau) (snd q))
+                                    + 2 * (p_beta P * p_beta P)))
+             else 0) (snd io)))
+        (rows (combine (match keys with Some ks => ks | None => map key_of_nat (seq 0 (length teams)) end) teams))).
+Proof. exact C07LiftL.rate_tmp_sharp. Qed.
+Print Assumptions C07_rate_tmp_sharp.
+
+(** partial model, sharp: only the tied pairs that are NEIGHBOURS in the stable order by rank
+    key count ([isort key_leb ks] next to [fst (unwind key_leb ks teams)] is the game sorted
+    stably by key, [ladder_pairs] lists the left and right neighbour of each element) *)
+Theorem C07_rate_tmp_sharp_neighbours : forall (Phi Phiinv : R -> R) (P : params R) (tau : R) (limit : bool)
+    (teams : list (list (rating R))) (ks : list key),
+  (2 <= length teams)%nat -> 0 < p_beta P -> 0 < p_kappa P ->
+  length ks = length teams -> Forall (fun k : key => (0 <= snd k)%Z) ks ->
+  Forall (fun t => t <> [] /\ Forall (fun p => 0 < r_sigma p * r_sigma p + tau * tau) t) teams ->
+  let sg := combine (isort key_leb ks) (fst (unwind key_leb ks teams)) in
+  0 <= Rsum (map (fun tr => Rsum (map (fun pr => r_mu (snd pr) - r_mu (fst pr)) (combine (fst tr) (snd tr)))
+                            / Rsum (map (fun p => r_sigma p * r_sigma p + tau * tau) (fst tr)))
+                 (combine teams (@rate_core R (RNum Phi Phiinv) TMP P tau limit teams (Some ks))))
+    <= Rsum (map (fun io : (key * list (rating R)) * list (key * list (rating R)) =>
+          Rsum (map (fun q : key * list (rating R) =>
+             if key_leb (fst (fst io)) (fst q) && key_leb (fst q) (fst (fst io))
+             then p_kappa P / (4 * (Rsum (map (fun p => r_sigma p * r_sigma p + tau * tau) (snd (fst io)))
+                                    + Rsum (map (fun p => r_sigma p * r_sigma p + tau * tau) (snd q))
+                                    + 2 * (p_beta P * p_beta P)))
+             else 0) (snd io)))
+        (combine sg (ladder_pairs sg))).
+Proof. exact C07LiftL.rate_tmp_neighbours. Qed.
+Print Assumptions C07_rate_tmp_sharp_neighbours.
+
+(** no two positions with equal keys: exactly zero, whatever the team mus are *)
+Theorem C07_rate_tm_no_ties : forall (Phi Phiinv : R -> R) (k : kind) (P : params R) (tau : R) (limit : bool)
+    (teams : list (list (rating R))) (ks : list key),
+  k = TMF \/ k = TMP ->
+  (2 <= length teams)%nat -> 0 < p_beta P -> 0 < p_kappa P ->
+  length ks = length teams -> Forall (fun k : key => (0 <= snd k)%Z) ks ->
+  Forall (fun t => t <> [] /\ Forall (fun p => 0 < r_sigma p * r_sigma p + tau * tau) t) teams ->
+  (forall a b ka kb, a <> b -> nth_error ks a = Some ka -> nth_error ks b = Some kb ->
+     key_leb ka kb && key_leb kb ka = false) ->
+  Rsum (map (fun tr => Rsum (map (fun pr => r_mu (snd pr) - r_mu (fst pr)) (combine (fst tr) (snd tr)))
+                       / Rsum (map (fun p => r_sigma p * r_sigma p + tau * tau) (fst tr)))
+            (combine teams (@rate_core R (RNum Phi Phiinv) k P tau limit teams (Some ks)))) = 0.
+Proof. intros Phi Phiinv k P tau limit teams ks [->| ->] Hn Hb Hk E W Hd NT; [apply (C07LiftL.rate_tm_no_ties Phi Phiinv false P tau limit teams (Some ks)) | apply (C07LiftL.rate_tm_no_ties Phi Phiinv true P tau limit teams (Some ks))]; auto; split; assumption. Qed.
+Print Assumptions C07_rate_tm_no_ties.
+
+(** no rank values given (the teams finish in input order, no ties): exactly zero *)
+Theorem C07_rate_tm_none : forall (Phi Phiinv : R -> R) (k : kind) (P : params R) (tau : R) (limit : bool)
+    (teams : list (list (rating R))),
+  k = TMF \/ k = TMP ->
+  (2 <= length teams)%nat -> 0 < p_beta P -> 0 < p_kappa P ->
+  Forall (fun t => t <> [] /\ Forall (fun p => 0 < r_sigma p * r_sigma p + tau * tau) t) teams ->
+  Rsum (map (fun tr => Rsum (map (fun pr => r_mu (snd pr) - r_mu (fst pr)) (combine (fst tr) (snd tr)))
+                       / Rsum (map (fun p => r_sigma p * r_sigma p + tau * tau) (fst tr)))
+            (combine teams (@rate_core R (RNum Phi Phiinv) k P tau limit teams None))) = 0.
+Proof. intros Phi Phiinv k P tau limit teams [->| ->]; [exact (C07LiftL.rate_tm_none Phi Phiinv false P tau limit teams) | exact (C07LiftL.rate_tm_none Phi Phiinv true P tau limit teams)]. Qed.
+Print Assumptions C07_rate_tm_none.
+
+(** non-vacuity of the hypotheses of the sharp theorems, and the value of the bound on a
+    concrete game: three one-player teams, the first two tied (keys 1, 1, 5/2): the only tied
+    pair is {0, 1} and the bound is 2 kappa / (V_0 + V_1 + 2 beta^2) *)
+Example C07_rate_sharp_nonvacuous :
+  let P : params R := mkParams 4 (1 / 10000) (fun _ _ _ _ _ _ => 1) in
+  let tau := 1 / 12 in
+  let teams := [[mkRating 25 2 0 NmNone]; [mkRating 30 2 1 NmNone]; [mkRating 20 3 2 NmNone]] in
+  let ks := [(1, 0)%Z; (1, 0)%Z; (5, 1)%Z] in
+  (2 <= length teams)%nat /\ 0 < p_beta P /\ 0 < p_kappa P /\
+  (length ks = length teams /\ Forall (fun k : key => (0 <= snd k)%Z) ks) /\
+  Forall (fun t => t <> [] /\ Forall (fun p => 0 < r_sigma p * r_sigma p + tau * tau) t) teams /\
+  Rsum (map (fun io : (key * list (rating R)) * list (key * list (rating R)) =>
+          Rsum (map (fun q : key * list (rating R) =>
+             if key_leb (fst (fst io)) (fst q) && key_leb (fst q) (fst (fst io))
+             then p_kappa P / (Rsum (map (fun p => r_sigma p * r_sigma p + tau * tau) (snd (fst io)))
+                               + Rsum (map (fun p => r_sigma p * r_sigma p + tau * tau) (snd q))
+                               + 2 * (p_beta P * p_beta P))
+             else 0) (snd io)))
+        (rows (combine ks teams)))
+  = 2 * (1 / 10000 / ((2 * 2 + 1 / 12 * (1 / 12)) + (2 * 2 + 1 / 12 * (1 / 12)) + 2 * (4 * 4))).
+Proof.
+  cbn -[Rdiv Rmult Rplus]. split; [auto|]. split; [lra|]. split; [lra|]. split; [|split].
+  - split; [reflexivity|]. repeat constructor; cbn; discriminate.
+  - repeat (constructor; try (split; [discriminate|])); cbn; lra.
+  - unfold rows. cbn -[Rdiv Rmult Rplus]. lra.
+Qed.
+
+(** a game without ties satisfying the hypotheses of [C07_rate_tm_no_ties] (keys 2, 1, 7/2) *)
+Example C07_rate_no_ties_nonvacuous :
+  let ks := [(2, 0)%Z; (1, 0)%Z; (7, 1)%Z] in
+  Forall (fun k : key => (0 <= snd k)%Z) ks /\
+  (forall a b ka kb, a <> b -> nth_error ks a = Some ka -> nth_error ks b = Some kb ->
+     key_leb ka kb && key_leb kb ka = false).
+Proof.
+  cbn. split; [repeat constructor; cbn; discriminate|].
+  intros [|[|[|a]]] [|[|[|b]]] ka kb Hab Ea Eb; cbn in Ea, Eb; try congruence;
+    try (destruct a; discriminate); try (destruct b; discriminate);
+    injection Ea as <-; injection Eb as <-; reflexivity.
 Qed.
